@@ -50,6 +50,14 @@ CLAIMED["C01"] = dict(
     note="Gauss-Legendre/Laguerre/Chebyshev node VALUES come from LAPACK/SciPy and are outside (stub contract); closed cos(pi q) identities are decided by cyclotomic normalisation or z3 on the Chebyshev chain; known finding: FejerSecond; fixed: FejerFirst odd n",
     ref="DESIGN.md#c01")
 
+CLAIMED["C10"] = dict(
+    text="The real get_localgrid / LocalGrid / points & weights setters / __getitem__ are executed on grids of every type (plain 1-3-D, OneDGrid, AtomGrid with symbolic centre, MolGrid, UniformGrid, "
+         "Tensor1DGrids, AngularGrid, PeriodicGrid without lattice) holding 2-4 symbolic points, with symbolic centre and radius; every path (all 2^n inside/outside patterns incl. the empty ball, r = inf) "
+         "is explored and z3 decides that the returned index set is exactly {i : |p_i - c| <= r} w.r.t. the CURRENT public points after histories of queries and reassignments; "
+         "index selection by int, np.int64/32, negative int, slice, index array and mask returns the same type, the selected rows and the same domain/lattice.",
+    note="cKDTree replaced by a stub with the stated contract (snapshot + exact ball query); subclass instances carry symbolic state via Grid.__init__ / direct attributes; empty index selections outside",
+    ref="DESIGN.md#c10")
+
 NOT_APPLICABLE = {
     "C02": "no symbolic input: validating 450 shipped data files against harmonics up to degree 325 is floating-point enumeration of concrete runs, outside solver-based checking and outside solver reach (the table/lookup half is decided in C12)",
 }
